@@ -28,7 +28,7 @@ META = {
 }
 
 TRACE_CONSTANTS = {'Pos': vlib.Raw('{}'), 'ReadBases': vlib.Raw('{}'), 'Quals': vlib.Raw('{}'), 'MaxReads': 0,
-                   'Refs': vlib.Raw('{}'), 'Cap': 0, 'MaxNs1': vlib.Raw('{}'), 'Variant': 'design'}
+                   'Refs': vlib.Raw('{}'), 'UMIs': vlib.Raw('{}'), 'Cap': 0, 'MaxNs1': vlib.Raw('{}'), 'Variant': 'design'}
 ACTIONS = ['AddRead', 'EndCollect', 'CallAll', 'BuildCigar', 'StepOp', 'Finish']
 
 
@@ -64,12 +64,13 @@ def run(tier):
     q = tier == 'quick'
     vlib.sany('PseudoRead')
     vlib.sany('Trace_PseudoRead')
-    for cfg in (['design_q', 'design_q2', 'design_q3'] if q else ['design_q', 'design_q2', 'design_q3', 'design_t', 'design_t2']):
+    for cfg in (['design_q', 'design_q2', 'design_q3', 'design_q4'] if q else ['design_q', 'design_q2', 'design_q3', 'design_q4', 'design_t', 'design_t2']):
         c.mc_pass('PseudoRead', 'MC_PseudoRead_%s.cfg' % cfg, actions_required=ACTIONS, workers=4 if q else 8, timeout=1500)
     c.mc_negative('PseudoRead', 'MC_PseudoRead_impl_D9_q.cfg', expect_inv='Inv_C15_Exists', workers=4)
     c.mc_negative('PseudoRead', 'MC_PseudoRead_impl_D10_q.cfg', expect_inv='Inv_C15_MD', workers=4)
     c.mc_negative('PseudoRead', 'MC_PseudoRead_split_ge_q.cfg', expect_inv='Inv_D_Split', workers=4)
     c.mc_negative('PseudoRead', 'MC_PseudoRead_tf_no_overflow_q.cfg', expect_inv='Inv_C15_Tags', workers=4)
+    c.mc_negative('PseudoRead', 'MC_PseudoRead_umi_max_q.cfg', expect_inv='Inv_C15_Tags', workers=4)
     trace = os.path.join(vlib.scratch(), 'pseudoread.ndjson')
     vlib.run_driver('drive_pseudoread.py', [trace, tier, c.seed])
     events = vlib.read_ndjson(trace)
@@ -129,6 +130,7 @@ def run(tier):
                     extra_cov={'distinct_nontrivial': len(set(json.dumps(e['reads'], sort_keys=True) for e in ps)),
                                'via': {v: sum(1 for e in ps if e['via'] == v) for v in ('api', 'api_hist', 'cli', 'cli_nosrc')},
                                'records': sum(len(e.get('records', [])) for e in ps),
+                               'molecules_with_minority_umis': sum(1 for e in ps if len(set(e['umis'])) > 1),
                                'molecules_written_through_write_pysam': sum(1 for e in ps if e.get('wp')),
                                'molecules_exceeding_max_associated_fragments': sum(1 for e in ps if e['mol']['TF'] > e['mol']['af']),
                                'molecules_split_into_several_records': sum(1 for e in ps if len(e.get('records', [])) > 1),
